@@ -665,11 +665,31 @@ def _fold_term(ctx, t):
     return False, None
 
 
+def parser_function(ctx):
+    """The function whose paths declare the options and call parse_args: _parse_args when main calls it, main itself when main builds
+    (or obtains) the parser and calls parse_args directly."""
+    cached = ctx.__dict__.get("_parser_fn")
+    if cached is not None:
+        return cached
+    p, A, G = ctx.p, ctx.A, ctx.G
+    f_parse = p.find_function("_parse_args")
+    f_main = p.find_function("netconan.main")
+    res = f_parse
+    calls_parse = any(f_parse in cs.funcs() for cs in G.by_owner.get(f_main.qualname, []))
+    if not calls_parse:
+        for path in A.paths(f_main).paths[:1]:
+            for e, ls in path.calls():
+                if M.callee_name(e.a) == "parse_args":
+                    res = f_main
+    ctx.__dict__["_parser_fn"] = res
+    return res
+
+
 def _cli_options_from_effects(ctx):
     """The add_argument calls as they are actually made: read off the call effects of _parse_args after helper inlining and
     table-loop unrolling, so declarations made through a helper, a table of specs or **kwargs are seen like literal ones."""
     p, A = ctx.p, ctx.A
-    f = p.find_function("_parse_args")
+    f = parser_function(ctx)
     out = {}
     for e, ls, path in A.paths(f).all_effects():
         if e.kind != "call" or not (e.a[1][0] == "attr" and e.a[1][2] == "add_argument"):
@@ -714,7 +734,7 @@ def cli_options(ctx):
 def _cli_options_literal(ctx):
     """add_argument calls written out literally in _parse_args and the helpers it calls."""
     p, A, G, folder = ctx.p, ctx.A, ctx.G, ctx.folder
-    f = p.find_function("_parse_args")
+    f = parser_function(ctx)
     out = {}
     # _parse_args and the helper functions of its module it (transitively) calls
     nodes = []
@@ -781,8 +801,8 @@ def option_spec_rule(ctx, rep, cl, only=None):
                key="%s.option-source|%s" % (cl, name))
     rep.ob(cl + ".option-specs", "_parse_args", n >= (len(only) if only else 12), "option declarations examined: %d" % n, "", nontrivial=False)
     # parser-level environment sources
-    f = ctx.p.find_function("_parse_args")
-    for node in ast.walk(f.node):
+    f = parser_function(ctx)
+    for node in ast.walk(f.module.tree):  # wherever in the module the parser is created
         if isinstance(node, ast.Call) and any(k.arg in ("auto_env_var_prefix", "default_config_files", "fromfile_prefix_chars", "allow_abbrev", "prefix_chars") for k in node.keywords):
             kws = [k.arg for k in node.keywords if k.arg in ("auto_env_var_prefix", "default_config_files", "fromfile_prefix_chars", "allow_abbrev", "prefix_chars")]
             rep.fail(cl + ".option-source", "parser", "the parser is created with %s: option values would come from places the property does not mention" % kws, where(f, node), key="%s.option-source|parser" % cl)
@@ -1380,8 +1400,9 @@ def _dump_requires_ips(ctx, rep, cl):
         if not path.feasible():
             continue
         args_t = None
+        direct = parser_function(ctx) is f_main
         for e, ls in path.calls():
-            if M.callee_name(e.a) == "_parse_args":
+            if M.callee_name(e.a) == "_parse_args" or (direct and M.callee_name(e.a) == "parse_args"):
                 args_t = e.a
         if args_t is None:
             continue
